@@ -48,6 +48,14 @@ CHECKS.update({
    technique='deterministic simulation: pairs of independently scheduled runs of one argument in a declared (weaker, stronger) logic pair read from the registry, floor share per declared pair plus sampled transitive pairs',
    text='For every declared extension pair (98 at this commit, each with a floor share; transitive pairs sampled) arguments in the weaker logic\'s vocabulary are proved in both logics under independent seeded configurations; a valid verdict in the weaker logic forbids a limit-free refutation in the stronger one. R1 says which side is wrong.',
    note='Arguments are sampled and biased to ones the weaker logic proves (mutated library examples).'),
+ 'C05': dict(engine='branchsim+proofsim', level='exploration', ref='DESIGN.md §6 C05',
+   technique='deterministic simulation: seeded arrival histories of literal constraint nodes on a rule-only tableau (orders, forks between arrivals, duplicate nodes, seeded hash order) judged by satisfiability in an independent reference semantics; closure-event monitor on whole proofs',
+   text='Seeded subsets of the literal constraints over one letter / predication / opaque sentence (and identity / existence literals in the classical family) arrive in seeded orders, sometimes split across a fork, in every logic; closed <=> R1 finds no satisfying value, and the model read off an open set must satisfy it. In whole proofs every closure event must be on an R1-unsatisfiable target and completed open branches must carry satisfiable literals. The literal space is small and covered many times over, but arrival orders and proofs are sampled.',
+   note='Forks are only generated from branches that cannot already close (a closable branch is never expanded by the prover); a 60-step limit bounds the serial rule on trunk-less tableaux.'),
+ 'C06': dict(engine='branchsim+proofsim', level='exploration', ref='DESIGN.md §6 C06',
+   technique='deterministic simulation: seeded append / access / copy / fork histories on Branch judged after every operation by the symbols actually occurring on each live branch (R5); step monitor on whole proofs for witness-introducing rules',
+   text='Seeded histories (<=10 ops, 7-constant pool with subscripts, worlds in sentence and access nodes, copies and forks extended independently) with the freshness invariant checked on every live branch after every operation; in whole proofs (biased to quantifier/modal/serial witnesses, constants in mixed first-appearance order) every constant or world introduced by a ticking quantifier/modal rule or the serial rule must be new to the branch.',
+   note='Histories and proofs are sampled.'),
 })
 
 NOT_APPLICABLE = {
